@@ -123,3 +123,45 @@ func verifC19NoOverwrite() {
 	verifrt.Reach("all-candidate-names-taken", len(existed) == len(dirs)*revs)
 	verifrt.Reach("appended-to-existing-file", !exclusive && len(existed) > 0 && len(after) == len(before))
 }
+
+// VerifC19_OneDirectoryTwoSpellings: --work-dir and --output-dir name the SAME directory under
+// two spellings (a trailing slash here; a symlink natively behaves alike). The logger then runs in
+// work-dir mode and "moves" every closed file onto itself: link(src, dst) fails with EEXIST
+// because dst IS src. Whatever the hand-off does about that, a record that was written, synced
+// and answered FIN must still be in a readable file afterwards - an EEXIST at the hand-off never
+// licenses removing the source. Two open-write-sync-close cycles, gzip on/off, rotate-interval
+// on/off (disk model with inode identity: os.SameFile is answered from it).
+func VerifC19_OneDirectoryTwoSpellings() { verifrt.Atomic(verifC19AliasDirs) }
+
+func verifC19AliasDirs() {
+	cfg := verifCfg{
+		aliasDirs:   true,
+		gzip:        verifrt.Choice("gzip", 2) == 1,
+		rotateEvery: verifrt.Choice("rotateInterval", 2) == 1,
+		maxInFlight: 1,
+	}
+	r := verifNewRun(cfg)
+	defer r.cleanup()
+	f := r.newLogger("t")
+	r.f = f
+	for cycle := 0; cycle < 2; cycle++ {
+		f.updateFile()
+		m := r.newMessage(verifrt.BytesN("body", 1))
+		i := len(r.msgs) - 1
+		_, err := f.Write(m.Body)
+		verifrt.Assert(err == nil, "write-succeeds")
+		_, err = f.Write([]byte("\n"))
+		verifrt.Assert(err == nil, "newline-write-succeeds")
+		verifrt.Assert(f.Sync() == nil, "sync-succeeds")
+		r.fin[i] = true
+		r.nFin++
+		f.Close()
+		f.out = nil
+		r.stateCheck() // (the same durability oracle the disk model applies after every unlink)
+		files := r.snapshot()
+		for k := 0; k <= i; k++ {
+			verifrt.Assert(r.recordIn(files, r.recs[k], true), "finished-record-survives-the-hand-off-onto-itself")
+		}
+	}
+	verifrt.Reach("two-files-closed-in-the-aliased-directory", r.nFin == 2)
+}
